@@ -45,7 +45,8 @@ def short_histories(prop, depth2: bool, small: bool, nseeds=None):
     for seed in _seeds(prop)[:nseeds]:
         pre = [seed] + gets
         for o in full:
-            out.append(pre + [o])
+            # quick (nseeds given): a second live view adds nothing to a history of length 1 on view 1
+            out.append(([seed, gets[0]] if nseeds and o.get("vw") == 1 else pre) + [o])
         if depth2:
             alpha = sm if small else full
             second = sm
@@ -449,7 +450,7 @@ def run(ctx: Ctx):
     for p in SETTER_PROPS:
         traces += alias_histories(p, rng, 3 if q else 150)
     traces += scalar_traces(rng)
-    for _ in range(150 if q else 5000):
+    for _ in range(130 if q else 5000):
         traces.append(random_walk(rng, rng.randint(6, 14)))
     ctx.notes["histories"] = len(traces)
     lines = judge_traces(ctx, traces)
